@@ -5,8 +5,12 @@
    (Spec/TargetCore.v dispatch + Multiple Service Packet, Spec/TargetLogix.v tag services);
    reference interpretation: Spec/Expect.v (ref_read / ref_type).
 
-   C01_full is the property at full strength.  What is proved:
-     C01_partial      = read_correct_partial: the same conclusion for every request that [request_ok]:
+   C01_full is the property at full strength (every request that exists in the controller and can
+   travel through the connection).  What is proved:
+     C01_full_refuted   the full statement fails on `g{65536}` for an array of 65536 elements: the element
+                        count of Read Tag is a UINT, the request cannot be built, its Tag is falsy.
+     C01_guard          exactly that input class (the client's element count >= 65536).
+     C01_partial      = read_correct_partial: C01's conclusion for every request that [request_ok]:
                         the client's parse of the string and the target's resolution of the client's
                         path agree with the place Expect.resolve assigns ([resolves], a per-request
                         condition decidable by computation) — for ALL projects with a sound layout,
@@ -14,16 +18,22 @@
                         single-packet / multi-service / fragmented plans, element types (atomic, REAL /
                         LREAL as bit patterns, arrays and {n} slices, integer bits, BOOL members, BOOL
                         arrays and ranges, strings, structures with hidden hosts at any nesting depth).
-     C01_full_from_resolution : C01_full follows from [resolution_sound] — exactly the part that is
-                        NOT proved: that every request string which exists in the project (rendered with
-                        the project's spelling) is parsed by _parse_tag_request / tag_request_path into a
-                        path the target resolves to the same place (the string layer; all request shapes).
-     C01_components   the component lemmas, each universally quantified. *)
+     C01_tags           end to end, string layer included, for read("Tag1", "Tag2", ...) of controller-scope
+                        tags of any type (Proofs/ReadResolve.v proves [request_ok] for them).
+     C01_single_segment end to end, string layer included, for every single-segment request on controller-scope
+                        tags: name, name[i], name[i,j], name[i,j,k], ....bit, ...{n}; BOOL arrays name[i]{n}
+                        (Proofs/ReadResolve1.v proves [request_ok] for them), any number of them in one call.
+     C01_guarded_from_resolution : the guarded statement follows from [resolution_sound] — exactly the
+                        part that is NOT proved in general: that the remaining request shapes which exist in
+                        the project (structure-member paths tag.member[..]..., program-scoped tags) are parsed
+                        by _parse_tag_request / tag_request_path into a path the target resolves to the same
+                        place.  That layer is exercised by the correspondence on every generated request.
+     C01_components     the component lemmas, each universally quantified. *)
 From Coq Require Import String.
 From PV Require Import Base.Bytes Base.Res Base.PyStr Spec.Project Spec.Expect Spec.TargetIface Spec.TargetCore Spec.TargetLogix.
 From PV Require Import Model.LogixRead.
 From PV Require Import Proofs.ReadBits Proofs.ReadDecode Proofs.ReadTarget Proofs.ReadValue Proofs.ReadFrag Proofs.ReadMulti
-  Proofs.ReadPlan Proofs.ReadCorrect.
+  Proofs.ReadPlan Proofs.ReadCorrect Proofs.ReadResolve Proofs.ReadResolve1.
 Open Scope list_scope.
 Open Scope Z_scope.
 
@@ -119,6 +129,51 @@ Proof.
   apply (Hres p mem cfg fuel s r Hwf Hwm Hlay H Hgs).
 Qed.
 Print Assumptions C01_guarded_from_resolution.
+
+(* ---------------------------------------------------------------- end to end (string layer included) for whole tags:
+   read("Tag1", "Tag2", ...) of controller-scope tags of ANY type (atomic, BOOL, BOOL array, arrays (first
+   element), structures, strings), any number of them, any plan, instance or symbolic addressing *)
+Definition tag_ast (g : tagdef) : request_ast := mkReq None [mkSeg (g_name g) []] None None.
+
+Definition C01_tags : Prop :=
+  forall p mem pol basic cfg fuel st ms (gs : list tagdef),
+    wf_project p = true -> wf_mem p mem = true -> layout_ok p = true -> upload_ok p = true -> 0 < po_bool_true pol < 256 ->
+    quiet (mkLState p mem pol basic) ms st -> (c_micro800 cfg = false -> ms = true) -> c_conn cfg < 65536 ->
+    Forall (fun g => In g (visible_tags p) /\ g_scope g = ScCtrl /\ plain_name (g_name g) = true
+                     /\ ref_read p mem (tag_ast g) <> None
+                     /\ (forall q path, parse_tag_request (client_tags p) (g_name g) = Ok q -> read_path (c_use_ids cfg) q = Ok path ->
+                                        fits (c_conn cfg) fuel q path)) gs ->
+    C01_conclusion p mem cfg fuel st (map g_name gs) (map tag_ast gs).
+
+Theorem C01_tags_hold : C01_tags.
+Proof.
+  intros p mem pol basic cfg fuel st ms gs Hwf Hwm Hlay Hup Hbt Hq Hms Hconn HF.
+  apply (C01_partial_holds p mem pol basic cfg fuel st ms (map g_name gs) (map tag_ast gs) Hlay Hbt (wf_mem_bytes_ok p mem Hwm) Hq Hms Hconn).
+  induction HF as [|g gs (Hvis & Hsc & Hname & Href & Hfits) _ IH]; [constructor|]. cbn [map]. constructor; [|exact IH].
+  exact (plain_request_ok p mem cfg fuel g Hwf Hwm Hlay Hup Hvis Hsc Hname Href Hfits).
+Qed.
+Print Assumptions C01_tags_hold.
+
+(* ---------------------------------------------------------------- end to end for every single-segment request on
+   controller-scope tags: "name", "name[i]", "name[i,j,k]", "....bit", "...{n}" on data tags (atomic, arrays,
+   structures, strings), "name", "name[i]", "name{n}", "name[i]{n}" on BOOL arrays, whole BOOL tags.
+   [sreq_ok] (Proofs/ReadResolve1.v): the tag is visible, the indices / bit / count are decimal fields, the
+   request exists (ref_read <> None) and fits the connection. *)
+Definition C01_single_segment : Prop :=
+  forall p mem pol basic cfg fuel st ms (xs : list sreq),
+    wf_project p = true -> wf_mem p mem = true -> layout_ok p = true -> upload_ok p = true -> 0 < po_bool_true pol < 256 ->
+    quiet (mkLState p mem pol basic) ms st -> (c_micro800 cfg = false -> ms = true) -> c_conn cfg < 65536 ->
+    Forall (sreq_ok p mem cfg fuel) xs ->
+    C01_conclusion p mem cfg fuel st (map sreq_text xs) (map sreq_ast xs).
+
+Theorem C01_single_segment_holds : C01_single_segment.
+Proof.
+  intros p mem pol basic cfg fuel st ms xs Hwf Hwm Hlay Hup Hbt Hq Hms Hconn HF.
+  apply (C01_partial_holds p mem pol basic cfg fuel st ms (map sreq_text xs) (map sreq_ast xs) Hlay Hbt (wf_mem_bytes_ok p mem Hwm) Hq Hms Hconn).
+  induction HF as [|x xs Hx _ IH]; [constructor|]. cbn [map]. constructor; [|exact IH].
+  exact (sreq_request_ok p mem cfg fuel x Hwf Hwm Hlay Hup Hx).
+Qed.
+Print Assumptions C01_single_segment_holds.
 
 (* ---------------------------------------------------------------- the full statement is refuted by the UINT element count.
    An array of 65536 SINTs exists; `g{65536}` asks for all of it; the element count of Read Tag is a UINT:
@@ -307,4 +362,31 @@ Proof.
                         (set_app (mkLState ex_proj ex_mem default_policy init_basic) (init_tstate init_lstate)) ex_reqs)
                  = Done tags) by (rewrite Hrun; reflexivity).
     vm_compute in Hc. injection Hc as <-. reflexivity.
+Qed.
+
+(* the hypotheses of C01_single_segment are inhabited by the same four requests *)
+Definition ex_sreqs : list sreq :=
+  [mkSreq (ex_tag (zs "x") 7 196 []) [] [] None None;
+   mkSreq (ex_tag (zs "a") 9 195 [4]) [zs "1"] [1] None (Some (zs "2", 2));
+   mkSreq (ex_tag (zs "b") 11 211 [2]) [zs "33"] [33] None None;
+   mkSreq (ex_tag (zs "x") 7 196 []) [] [] (Some (zs "31", 31)) None].
+
+Ltac sreq_fact :=
+  unfold sreq_ok; cbn [sr_g sr_ids sr_idv sr_bit sr_cnt];
+  split; [vm_compute; tauto|]; split; [reflexivity|]; split; [vm_compute; reflexivity|];
+  split; [repeat constructor; vm_compute; congruence|];
+  split; [first [exact I | repeat split; vm_compute; congruence]|];
+  split; [first [exact I | repeat split; vm_compute; congruence]|];
+  split; [unfold sreq_shape; cbn [sr_g sr_ids sr_idv sr_bit sr_cnt g_ty ex_tag g_dims]; unfold C_BOOL, C_DWORD; cbn [Z.eqb Pos.eqb];
+          first [split; [reflexivity|cbn [length]; lia] | repeat constructor; lia]|];
+  split; [vm_compute; discriminate|];
+  intros q path H1 H2; vm_compute in H1; injection H1 as <-; vm_compute in H2; injection H2 as <-;
+  unfold fits; repeat split; fact.
+
+Example C01_single_nonvacuous :
+  map sreq_text ex_sreqs = ex_reqs /\ map sreq_ast ex_sreqs = ex_asts
+  /\ upload_ok ex_proj = true /\ Forall (sreq_ok ex_proj ex_mem ex_cfg 100) ex_sreqs.
+Proof.
+  split; [vm_compute; reflexivity|]. split; [vm_compute; reflexivity|]. split; [vm_compute; reflexivity|].
+  unfold ex_sreqs. constructor; [sreq_fact|]. constructor; [sreq_fact|]. constructor; [sreq_fact|]. constructor; [sreq_fact|constructor].
 Qed.
